@@ -177,6 +177,78 @@ def main():
             shutil.rmtree(d, ignore_errors=True)
         if k < 2:
             samples.append({"argv": [a.replace(d, ".") for a in argv[1:]], "model": ma, "exit": p.returncode})
+    # rendering sweep: every kind of diagnostic must honour --color=never / --arrows=ascii.  Inputs: every invalid sample of
+    # the repository, an `as` matrix over primitive, pointer, array and slice types (every branch of the conversion notes),
+    # mutated corpus files and faulted generated programs; each through the real binary (`emit`, no backend).
+    import faultgen
+    sweep = []
+    inv_dir = os.path.join(REPO, "tests", "samples", "invalid")
+    for fn_ in sorted(os.listdir(inv_dir)):
+        if fn_.endswith(".pn"):
+            try:
+                sweep.append(("sample:" + fn_, open(os.path.join(inv_dir, fn_), encoding="utf-8").read()))
+            except UnicodeDecodeError:
+                pass
+    CT = {"i32": "1", "u8": "1", "i64": "1", "usize": "1", "bool": "true", "char8": "'a'",
+          "&i32": "&x", "&u8": "&y", "&&i32": "&&p", "[2]i32": "[1, 2]", "[2]u8": "[1, 2]", "&[]i32": "&arr", "&[]u8": "&arr8"}
+    for s_, init in CT.items():
+        for d_ in CT:
+            sweep.append(("as:%s:%s" % (s_, d_),
+                          "fn main()\n{\n\tvar x: i32 = 1;\n\tvar y: u8 = 1;\n\tvar p: &i32 = &x;\n\tvar arr: [2]i32 = [1, 2];\n"
+                          "\tvar arr8: [2]u8 = [1, 2];\n\tvar a: %s = %s;\n\tvar c: %s = %sa as %s;\n}\n"
+                          % (s_, init, d_, "&" * s_.count("&"), d_)))
+    srng = rng.fork("sweep")
+    cps = faultgen.corpus()
+    for i in range(400 if thorough else 60):
+        nm, src = cps[srng.below(len(cps))]
+        sweep.append(("mutated:" + nm, faultgen.mutate(srng.fork("m%d" % i), src)))
+    for i in range(400 if thorough else 60):
+        sweep.append(("faulted:%d" % i, faultgen.faulted_program(srng.fork("f%d" % i))))
+    sd = os.path.join(work, "sweep")
+    os.makedirs(sd)
+    import concurrent.futures
+    def render(job):
+        idx, (tag, src) = job
+        f = os.path.join(sd, "s%d.pn" % idx)
+        try:
+            open(f, "w", encoding="utf-8").write(src)
+        except UnicodeEncodeError:
+            return tag, src, None, b""
+        try:
+            pr = subprocess.run([penne, "emit", f, "--color=never", "--arrows=ascii", "--out-dir", os.path.join(sd, "o%d" % idx)],
+                                cwd=sd, stdout=subprocess.PIPE, stderr=subprocess.PIPE, timeout=120)
+        except subprocess.TimeoutExpired:
+            return tag, src, "timeout", b""
+        return tag, src, pr.returncode, pr.stdout + pr.stderr
+    with concurrent.futures.ThreadPoolExecutor(max_workers=NCPU) as ex:
+        rendered = list(ex.map(render, enumerate(sweep)))
+    nsweep = 0
+    for tag, src, rc, out in rendered:
+        if rc is None:
+            continue
+        nsweep += 1
+        problems = []
+        cls = tag.split(":")[0]
+        has_diag = re.search(rb"\[[EL]\d+\]", out) is not None
+        if b"\x1b[" in out:
+            problems.append("ANSI escapes despite --color=never")
+        if all(ord(ch) < 128 for ch in src) and any(b > 127 for b in out):
+            problems.append("non-ASCII output despite --arrows=ascii on an ASCII source")
+        if rc == "timeout":
+            problems.append("timeout")
+        elif rc != 0 and not has_diag and rc > 0 and b"panicked" not in out and rc != 101:
+            problems.append("non-zero exit status %s without a rendered diagnostic" % rc)
+        elif rc == 0 and re.search(rb"\[E\d+\]", out):
+            problems.append("exit status 0 although an error was rendered")
+        dist["sweep:%s:%s" % (cls, "exit0" if rc == 0 else "nonzero")] += 1
+        if problems:
+            rep.violation("sweep:%s:%s" % (tag, hash_str(src)), {"problems": problems, "source": src, "exit_status": rc,
+                          "argv": ["penne", "emit", "main.pn", "--color=never", "--arrows=ascii"],
+                          "output_tail": out[-1500:].decode("utf8", "replace")})
+        else:
+            agreeing += 1
+    shutil.rmtree(sd, ignore_errors=True)
+    n += nsweep
     report_broken_proof(rep)
     rep.coverage.update({
         "evaluations": n, "distinct_nontrivial": len(dist),
@@ -184,7 +256,10 @@ def main():
                 "(default), run, emit} x input in {valid, invalid, two valid modules, two modules one invalid, invalid with "
                 "non-ASCII} x backend given by flag / environment / config / default (stub scripts that log their argv and "
                 "exit with a chosen status or die by signal; the real lli for half of the `run` cases) x --silent, --verbose, "
-                "--color, --arrows, --out-dir; distinct = (subcommand, input, exit class)",
+                "--color, --arrows, --out-dir; distinct = (subcommand, input, exit class); rendering sweep: every invalid sample of "
+                "the repository, an `as` matrix over 13 primitive/pointer/array/slice types, mutated corpus files and faulted "
+                "generated programs through `penne emit --color=never --arrows=ascii`: no ANSI escape, ASCII-only output for an "
+                "ASCII source, a rendered diagnostic with every failure, never exit 0 with an error",
         "traces_validated_against_impl": agreeing,
         "distribution": dict(dist), "samples": samples,
     })
